@@ -39,8 +39,10 @@ FAMILIES = {
                   quick=[ex(4, NSlots="= 1", Ops="<- OpsSrc", Shapes="<- ShapesOne", Shapes2="<- Shapes2V")],
                   thorough=[ex(5, NSlots="= 1", Ops="<- OpsSrc", Shapes="<- ShapesOne", Shapes2="<- Shapes2V")]),
     "Transfer": fam("MC_Transfer",
-                    quick=[chain(4, hops=2), sim(1500, 6, design=False, NSlots="= 2")],
-                    thorough=[chain(4, hops=2), sim(30000, 8, NSlots="= 3")]),
+                    quick=[chain(4, hops=2), sim(1500, 6, design=False, NSlots="= 2"),
+                           sim(64, 24, design=False, NSlots="= 1", Ops="<- OpsDeep", MaxNodes="= 40")],
+                    thorough=[chain(4, hops=2), sim(30000, 8, NSlots="= 3"),
+                              sim(1000, 30, design=False, NSlots="= 1", Ops="<- OpsDeep", MaxNodes="= 48")]),
     "Marks": fam("MC_Marks",
                  quick=[ex(2), ex(3, Ops="<- OpsPrefix", Shapes="<- ShapesPrefix"),
                         sim(1500, 6, design=False, NSlots="= 3"),
